@@ -1831,6 +1831,14 @@ func detectChangesInHosts(oldHosts map[string]Resource, newHosts map[string]Reso
 			updatedHosts = append(updatedHosts, h)
 		}
 
+		if newVsc.HTTPSIPv4 != oldVsc.HTTPSIPv4 {
+			updatedHosts = append(updatedHosts, h)
+		}
+
+		if newVsc.HTTPSIPv6 != oldVsc.HTTPSIPv6 {
+			updatedHosts = append(updatedHosts, h)
+		}
+
 	}
 
 	return removedHosts, updatedHosts, addedHosts
